@@ -192,4 +192,72 @@ RECIPES = [
      "cbcheck: stiffness-based modes referenced to the first boundary grid instead of bref"),
     ("C06", "break", ["C06-R7"], CB, "        i = np.argsort(np.argsort(bseto))\n", "        i = np.argsort(bseto)\n", "cbcheck: USET rows gathered with the inverse permutation (finding F17 re-introduced)"),
     ("C06", "neutral", [], CB, "        i = np.argsort(np.argsort(bseto))\n", "        i = np.searchsorted(np.sort(bseto), bseto)\n", "cbcheck: rank of each b-set DOF through searchsorted"),
+    # ---- neutral round N14-N16 and the own refactorings O1-O4 of that pass: one replacement each
+    ("C06", "neutral", [], CB, "    Omega = 2 * math.pi * freq\n", "    Omega = math.tau * freq\n", "cbtf: math.tau for 2 pi"),
+    ("C06", "neutral", [], CB, "        displ[np.ix_(bset, pvnz)] = -a[:, pvnz] / Omega[pvnz] ** 2", "        displ[np.ix_(bset, pvnz)] = np.negative(a[:, pvnz]) / np.square(Omega[pvnz])",
+     "cbtf: np.negative / np.square"),
+    ("C06", "neutral", [], CB, "        tf = None\n        if isinstance(save, abc.MutableMapping):\n            try:\n                tf = save[\"tf\"]\n            except KeyError:\n                pass\n",
+     "        tf = save.get(\"tf\") if isinstance(save, abc.MutableMapping) else None\n", "cbtf: cache read with .get"),
+    ("C06", "neutral", [], CB, "            try:\n                tf = save[\"tf\"]\n            except KeyError:\n                pass\n",
+     "            if \"tf\" in save:\n                tf = save[\"tf\"]\n", "cbtf: cache read guarded by a membership test"),
+    ("C06", "neutral", [], CB, "        tf = None\n        if isinstance(save, abc.MutableMapping):\n            try:\n                tf = save[\"tf\"]\n            except KeyError:\n                pass\n        if tf is None:\n            qq = np.ix_(qset, qset)\n            tf = ode.SolveUnc(m[qq], b[qq], k[qq], rb=[])\n            if isinstance(save, abc.MutableMapping):\n                save[\"tf\"] = tf\n",
+     "        cache = save if isinstance(save, abc.MutableMapping) else None\n        tf = None\n        if cache is not None:\n            try:\n                tf = cache[\"tf\"]\n            except LookupError:\n                pass\n        if tf is None:\n            qq = np.ix_(qset, qset)\n            tf = ode.SolveUnc(m[qq], b[qq], k[qq], rb=[])\n            if cache is not None:\n                cache[\"tf\"] = tf\n",
+     "cbtf: the cache under another name that is None when there is none; the parent exception class"),
+    ("C06", "neutral", [], CB, "    if a.ndim == 1 or (a.ndim == 2 and a.shape[1] == 1):", "    if a.ndim == 1 or a.shape[1:] == (1,):", "cbtf: single-column test on the shape tuple"),
+    ("C06", "neutral", [], CB, "    return SimpleNamespace(frc=frc, a=accel, d=displ, v=veloc, freq=freq, f=freq)",
+     "    out = SimpleNamespace(frc=frc, a=accel)\n    vars(out).update(d=displ, v=veloc, freq=freq, f=freq)\n    return out", "cbtf: namespace completed through vars()"),
+    ("C06", "neutral", [], CB, "    if conv == \"m2e\":\n        lengthconv = 1 / 0.0254\n        massconv = 0.005710147154735817\n    elif conv == \"e2m\":\n        lengthconv = 0.0254\n        massconv = 175.12683524637913\n    else:\n        lengthconv, massconv = conv\n    return lengthconv, massconv",
+     "    match conv:\n        case \"m2e\":\n            return 1 / 0.0254, 0.005710147154735817\n        case \"e2m\":\n            return 0.0254, 175.12683524637913\n        case _:\n            lengthconv, massconv = conv\n            return lengthconv, massconv",
+     "_get_conv_factors: match statement"),
+    ("C06", "break", ["C06-R2"], CB, "    if conv == \"m2e\":\n        lengthconv = 1 / 0.0254\n        massconv = 0.005710147154735817\n    elif conv == \"e2m\":\n        lengthconv = 0.0254\n        massconv = 175.12683524637913\n    else:\n        lengthconv, massconv = conv\n    return lengthconv, massconv",
+     "    match conv:\n        case \"m2e\":\n            return 0.0254, 0.005710147154735817\n        case \"e2m\":\n            return 0.0254, 175.12683524637913\n        case _:\n            lengthconv, massconv = conv\n            return lengthconv, massconv",
+     "_get_conv_factors: match statement whose m2e arm returns the e2m length factor"),
+    ("C06", "neutral", [], CB, "        c = math.sqrt(massconv) * lengthconv\n        C[q] = 1 / c\n        D[q] = c\n", "        C[q], D[q] = (lambda c: (1 / c, c))(math.sqrt(massconv) * lengthconv)\n",
+     "cbconvert: a lambda called on the spot"),
+    ("C06", "neutral", [], CB, "    rot = trn + 3\n    C[b[trn]]", "    rot = ytools.mkpattvec([3, 4, 5], lb, 6).ravel()\n    C[b[trn]]", "cbconvert: the rotation rows from their own pattern vector"),
+    ("C06", "neutral", [], CB, "    D[b[rot]] = massconv * lengthconv**2\n", "    np.put(D, b[rot], massconv * lengthconv**2)\n", "cbconvert: np.put on the one-dimensional diagonal"),
+    ("C06", "break", ["C06-R2"], CB, "    D[b[rot]] = massconv * lengthconv**2\n", "    np.put(D, b[rot], massconv * lengthconv)\n", "cbconvert: np.put with the translation factor on the rotations"),
+    ("C06", "neutral", [], CB, "    pv = dof == 1\n    uset.iloc[pv, 1:] *= lengthconv\n    pv = dof == 3\n    uset.iloc[pv, 1:] *= lengthconv",
+     "    rows = uset.iloc\n    pv = dof == 1\n    rows[pv, 1:] = rows[pv, 1:] * lengthconv\n    pv = dof == 3\n    rows[pv, 1:] = rows[pv, 1:] * lengthconv", "uset_convert: the indexer held in a name"),
+    ("C06", "neutral", [], CB, "        psi = linalg.solve(-k[zz], k[zx])\n", "        psi = linalg.solve(np.negative(k[zz]), k[zx])\n", "_solve_eig: np.negative"),
+    ("C06", "neutral", [], CB, "    if z_m.any():\n        # there are massless dof with stiffness", "    if not nz_m.all():\n        # there are massless dof with stiffness", "_solve_eig: `not mask.all()` for `(~mask).any()`"),
+    ("C06", "neutral", [], CB, "    if z.any():\n        # there are zero cols", "    if np.count_nonzero(z) > 0:\n        # there are zero cols", "_solve_eig: count of the null columns"),
+    ("C06", "neutral", [], CB, "    if z.any():\n        v2 = np.empty((z.shape[0], v.shape[1]))", "    if nz.sum() < nz.shape[0]:\n        v2 = np.empty((z.shape[0], v.shape[1]))", "_solve_eig: fewer kept columns than columns"),
+    ("C06", "break", ["C06-R4"], CB, "    if z_m.any():\n        # there are massless dof with stiffness", "    if nz_m.all():\n        # there are massless dof with stiffness",
+     "_solve_eig: the condensation is run when there is nothing to condense and skipped when there is"),
+    ("C06", "neutral", [], CB, "        if z.any():\n            nz2 = np.ix_(nz, nz)\n            kbb = kbb[nz2]", "        if not nz.all():\n            nz2 = np.ix_(nz, nz)\n            kbb = kbb[nz2]", "_cbcoordchk: `not nz.all()`"),
+    ("C06", "neutral", [], CB, "    if lb_orig > 6 and z.any():\n        rb2", "    if not (lb_orig <= 6 or np.count_nonzero(z) == 0):\n        rb2", "_cbcoordchk: De Morgan and a count"),
+    ("C06", "neutral", [], CB, "    if o.size > 0:\n        kor", "    if len(o) != 0:\n        kor", "_cbcoordchk: len() != 0"),
+    ("C06", "neutral", [], CB, "    o = locate.flippv(refpoint, lb)\n    rbmodes = np.zeros((lb, 6))", "    lb = kbb.shape[0]\n    o = locate.flippv(refpoint, lb)\n    rbmodes = np.zeros((lb, 6))",
+     "_cbcoordchk: the size of the boundary stiffness re-read from the matrix (equal to len(bset) when nothing was trimmed)"),
+    ("C06", "break", ["C06-R6"], CB, "        if z.any():\n            nz2 = np.ix_(nz, nz)\n            kbb = kbb[nz2]", "        if nz.all():\n            nz2 = np.ix_(nz, nz)\n            kbb = kbb[nz2]",
+     "_cbcoordchk: trimming skipped exactly when there are null DOF"),
+    ("C06", "neutral", [], CB, "    f.write(f\"6x6 mass matrix from {rbtype}-based rb modes:\\n\\n\")", "    print(f\"6x6 mass matrix from {rbtype}-based rb modes:\\n\", file=f)", "_wrtmass: print(..., file=f)"),
+    ("C06", "neutral", [], CB, "    _wrtmass(f, ms, \"stiffness\")\n    _wrtmass(f, mg, \"geometry\")\n    _wrtmass(f, me, \"eigensolution\")\n",
+     "    def _by_rbtype(*groups):\n        for i, rbtype in enumerate((\"stiffness\", \"geometry\", \"eigensolution\")):\n            yield (rbtype,) + tuple(group[i] for group in groups)\n\n    for rbtype, mass in _by_rbtype((ms, mg, me)):\n        _wrtmass(f, mass, rbtype)\n",
+     "cbcheck: a generator pairs each label with its mass"),
+    ("C06", "break", ["C06-R5"], CB, "    _wrtmass(f, ms, \"stiffness\")\n    _wrtmass(f, mg, \"geometry\")\n    _wrtmass(f, me, \"eigensolution\")\n",
+     "    def _by_rbtype(*groups):\n        for i, rbtype in enumerate((\"stiffness\", \"geometry\", \"eigensolution\")):\n            yield (rbtype,) + tuple(group[i - 1] for group in groups)\n\n    for rbtype, mass in _by_rbtype((ms, mg, me)):\n        _wrtmass(f, mass, rbtype)\n",
+     "cbcheck: the generator pairs each label with the mass of its neighbour"),
+    ("C06", "neutral", [], CB, "    effmass = pd.DataFrame(effmass, index=frq, columns=cols).rename_axis(\n        \"Frq (Hz)\", axis=\"index\"\n    )\n    effmass_percent = pd.DataFrame(\n        effmass_percent,\n        index=frq,\n        columns=cols,\n    ).rename_axis(\"Frq (Hz)\", axis=\"index\")\n",
+     "    def _em_table(values):\n        return pd.DataFrame(values, index=frq, columns=cols).rename_axis(\"Frq (Hz)\", axis=\"index\")\n\n    effmass, effmass_percent = map(_em_table, (effmass, effmass_percent))\n",
+     "cbcheck: the two effective-mass tables through map() over a local function"),
+    ("C06", "neutral", [], CB, "        effmass_percent = effmass * (100 / np.diag(mg))", "        effmass_percent = effmass * (100 / np.diagonal(mg))", "cbcheck: np.diagonal of the 6x6 mass"),
+    ("C06", "break", ["C06-R5"], CB, "        effmass_percent = effmass * (100 / np.diag(mg))", "        effmass_percent = effmass * (100 / np.diagonal(ms))", "cbcheck: percentage of the stiffness-based mass (np.diagonal)"),
+    ("C06", "neutral", [], CB, "        displ[np.ix_(bset, pvnz)] = -a[:, pvnz] / Omega[pvnz] ** 2", "        w2 = Omega**2\n        displ[bset[:, None], pvnz] = -a[:, pvnz] / w2[pvnz]",
+     "cbtf: squared frequency as a temporary; the open mesh np.ix_ written by hand"),
+    ("C06", "break", ["C06-R1"], CB, "        displ[np.ix_(bset, pvnz)] = -a[:, pvnz] / Omega[pvnz] ** 2", "        w2 = Omega**2\n        displ[qset[:, None], pvnz] = -a[:, pvnz] / w2[pvnz]",
+     "cbtf: the enforced displacement stored at the interior rows (hand-written open mesh)"),
+    ("C06", "neutral", [], CB, "        frc = m[bset] @ accel + b[bset] @ veloc + k[bb] @ displ[bset]", "        frc = np.take(m, bset, axis=0) @ accel + b[bset] @ veloc + k[bb] @ displ[bset]", "cbtf: np.take for the boundary rows"),
+    ("C06", "break", ["C06-R1"], CB, "        frc = m[bset] @ accel + b[bset] @ veloc + k[bb] @ displ[bset]", "        frc = np.take(m, bset, axis=1) @ accel + b[bset] @ veloc + k[bb] @ displ[bset]",
+     "cbtf: np.take of the boundary columns instead of the rows"),
+    ("C06", "neutral", [], CB, "        q = locate.flippv(b, lt)\n        if last:", "        q = np.setdiff1d(np.arange(lt), b)\n        if last:", "cbreorder: the complement through setdiff1d"),
+    ("C06", "break", ["C06-R3"], CB, "        q = locate.flippv(b, lt)\n        if last:", "        q = np.setdiff1d(np.arange(lb), b)\n        if last:", "cbreorder: the complement taken in range(len(b))"),
+    ("C06", "neutral", [], CB, "        q = locate.flippv(b, lt)\n        c = math.sqrt(massconv) * lengthconv", "        modal = np.ones(lt, dtype=bool)\n        modal[b] = False\n        q = modal.nonzero()[0]\n        c = math.sqrt(massconv) * lengthconv",
+     "cbconvert: the complement of the boundary set written out"),
+    ("C06", "break", ["C06-R2"], CB, "        q = locate.flippv(b, lt)\n        c = math.sqrt(massconv) * lengthconv", "        modal = np.zeros(lt, dtype=bool)\n        modal[b] = True\n        q = modal.nonzero()[0]\n        c = math.sqrt(massconv) * lengthconv",
+     "cbconvert: the modal factors put on the boundary DOF (membership mask instead of its complement)"),
+    ("C06", "neutral", [], CB, "        tf = None\n        if isinstance(save, abc.MutableMapping):\n            try:", "        from collections.abc import MutableMapping as _Mapping\n\n        tf = None\n        if isinstance(save, _Mapping):\n            try:",
+     "cbtf: the mapping class imported under another name"),
+    ("C06", "neutral", [], CB, "        psi = linalg.solve(-k[zz], k[zx])\n", "        import scipy.linalg\n\n        psi = scipy.linalg.solve(-k[zz], k[zx])\n", "_solve_eig: the solver by its full dotted name"),
 ]
